@@ -9,5 +9,5 @@ python3 translator/gen.py
 sh coq/files.sh
 ( cd coq && timeout 3000 make -j16 )
 cp /repo/Cargo.lock harness/Cargo.lock 2>/dev/null || true
-( cd harness && timeout 3000 cargo build --offline --quiet )
+( cd harness && timeout 3000 cargo build --offline --quiet --bins )
 echo setup-ok
